@@ -984,6 +984,17 @@ func bunOps(c *hCtx, p string, hdr string, loc string, kid []byte) {
 		c.step()
 		_ = b.Count(bundle.KeepNone)
 		c.step()
+		// the read-only questions with every kind of filter VALUE (a Predicate and the filters that are not one),
+		// each followed by the operations that touch every token: asking must leave the bundle as it was
+		for _, f := range []bundle.Filter{b.IsMissingDischarge(hLoc3), b.IsMissingDischarge(loc), b.WithDischarges(b.IsPermissionToken),
+			bundle.DefaultFilter(b.IsPermissionToken), bundle.LocationFilter(loc), bundle.LocationFilter(""), bundle.KeepNone, bundle.IsMalformedMacaroon} {
+			_ = b.Count(f)
+			_ = b.Any(f)
+			_ = b.Header()
+			_ = b.Len()
+			_ = b.Clone().String()
+			c.step()
+		}
 		_, _ = b.Verify(ctx, ver)
 		c.step()
 		_ = b.Select(bundle.IsVerificationResult).Header()
